@@ -4,6 +4,7 @@ import (
 	"bytes"
 	"fmt"
 	"go/ast"
+	"go/constant"
 	"go/printer"
 	"go/token"
 	"go/types"
@@ -140,6 +141,30 @@ func ruleR32R33(c *Ctx) {
 								_, sTP := types.Unalias(srcT).(*types.TypeParam)
 								_, dTP := types.Unalias(dstT).(*types.TypeParam)
 								if sTP || dTP {
+									// switch unsafe.Sizeof(k) { case 4: … }: the arm fixes the size of the type parameter
+									if n, ok := c.armSize(stack); ok {
+										ssz, dsz := n, n
+										if !sTP {
+											ssz = c.L.Sizes.Sizeof(srcT)
+										}
+										if !dTP {
+											dsz = c.L.Sizes.Sizeof(dstT)
+										}
+										other := dstT
+										if dTP {
+											other = srcT
+										}
+										switch {
+										case !pointerFree(other):
+											c.r.bad("R32", key, m.pos(x.Pos()), "reinterpretation involves a type that contains pointers", props...)
+										case ssz != dsz:
+											c.r.bad("R32", key, m.pos(x.Pos()), fmt.Sprintf("reads %d bytes of a %d-byte variable (the arm is the one for unsafe.Sizeof == %d)", dsz, ssz, n), append(props, "C07")...)
+										default:
+											counts["P3 reinterpretation of a pointer-free local"]++
+											c.r.ok("R32", key, m.pos(x.Pos()), fmt.Sprintf("pointer-free, %d = %d bytes in the arm for unsafe.Sizeof == %d", dsz, ssz, n), append(props, "C07")...)
+										}
+										return true
+									}
 									c.r.undecided("R32", key, m.pos(x.Pos()), "type parameter not resolved by an enclosing type-switch arm", props...)
 									return true
 								}
@@ -335,6 +360,35 @@ func typeStr(t types.Type) string {
 }
 
 // armType: the single type of the innermost enclosing type-switch case clause.
+// armSize: the size that an enclosing `switch unsafe.Sizeof(x) { case C: … }` arm (x of a type
+// parameter's type) establishes for that type parameter.
+func (c *Ctx) armSize(stack []ast.Node) (int64, bool) {
+	info := c.m.Info
+	for i := len(stack) - 1; i >= 2; i-- {
+		cc, ok := stack[i].(*ast.CaseClause)
+		if !ok || len(cc.List) != 1 {
+			continue
+		}
+		sw, ok := stack[i-2].(*ast.SwitchStmt)
+		if !ok || sw.Tag == nil {
+			continue
+		}
+		call, ok := ast.Unparen(sw.Tag).(*ast.CallExpr)
+		if !ok || c.m.calleeName(call) != "unsafe.Sizeof" || len(call.Args) != 1 {
+			continue
+		}
+		if _, isTP := types.Unalias(info.TypeOf(call.Args[0])).(*types.TypeParam); !isTP {
+			continue
+		}
+		if tv, ok := info.Types[cc.List[0]]; ok && tv.Value != nil {
+			if v, exact := constant.Int64Val(constant.ToInt(tv.Value)); exact {
+				return v, true
+			}
+		}
+	}
+	return 0, false
+}
+
 func (c *Ctx) armType(stack []ast.Node) types.Type {
 	for i := len(stack) - 1; i >= 0; i-- {
 		cc, ok := stack[i].(*ast.CaseClause)
